@@ -6,7 +6,8 @@ Not a template.  The bodies of
                                            StackInfoWin::memory_range
   breakpad-symbols/src/sym_file/mod.rs     SymbolFile::{find_nearest_public, fill_symbol}
   breakpad-symbols/src/sym_file/parser.rs  the Line::Function arm of SymbolParser::finish_item (line filter, the closure building each line's
-                                           range, into_rangemap_safe, inlinees.retain / sort, memory_range, self.functions.push)
+                                           range, into_rangemap_safe, inlinees.retain / sort, memory_range, self.functions.push);
+                                           insert_win_stack_info (the overlap repair of STACK WIN records: `last_mut()` borrows, `as u32`, `unwrap`)
 are tokenised, parsed (a small Rust subset: let / if / if let / match / for x in n.. / return / break / assignment /
 closures / method chains / tuples / ? / as / & / comparison and + -) and compiled, statement by statement, into Gallina
 over the vocabulary of coq/C11/Prims.v:
@@ -459,7 +460,7 @@ for sn, fs in EXPECT.items():
             STRUCTS[sn][f] = t
 
 
-SETTER = {("Function", "lines"): "func_set_lines", ("Function", "inlinees"): "func_set_inlinees"}
+SETTER = {("Function", "lines"): "func_set_lines", ("Function", "inlinees"): "func_set_inlinees", ("StackInfoWin", "size"): "win_set_size"}
 EQB = {"SourceLine": "line_eqb"}                          # `==` of the value type (into_rangemap_safe compares values)
 DERIVED_LT = {"Inlinee": "inl_lt", "PublicSymbol": "pub_lt"}  # derive(Ord): lexicographic in declaration order (pinned by c11_symbolize.py)
 
@@ -527,6 +528,7 @@ class Gen:
         self.gnames = set()
         self.out = "v_frame"   # what a function returning () returns: its mutable outputs
         self.in_closure = False
+        self.writeback = []    # inside `if let Some(..) = v.last_mut() { .. }`: the lets that store the borrowed element back
 
     def fresh(self, stem):
         self.n += 1
@@ -564,7 +566,7 @@ class Gen:
         return "Ret None"
 
     def end_unit(self):
-        return "Ret %s" % par(self.out)
+        return "".join(reversed(self.writeback)) + "Ret %s" % par(self.out)
 
     # ---- blocks
     def block(self, stmts, env, k):
@@ -751,6 +753,8 @@ class Gen:
             def c(text, t):
                 if (t, e[2]) in (("u32", "u64"), ("u64", "u64"), ("u32", "u32")):
                     return k.fn(text, e[2])
+                if (t, e[2]) == ("u64", "u32"):
+                    return k.fn("(wrap32 %s)" % text, "u32")       # `as u32` truncates
                 self.fail("cast from %r to %s is outside the subset" % (t, e[2]))
             return self.expr(e[1], env, K(c, k.tail))
         if kind == "field":
@@ -778,6 +782,9 @@ class Gen:
                 if rt != "intlit" and lt != "intlit" and lt != rt:
                     self.fail("operands of `%s` have types %r and %r" % (op, lt, rt))
                 l, r = lit(l, lt, t), lit(r, rt, t)
+                if op in ("==", "!=") and t == "range":
+                    c = "(range_eqb %s %s)" % (l, r)
+                    return k.fn(c if op == "==" else "(negb %s)" % c, "bool")
                 if op in ("==", "!=", "<", "<=", ">", ">="):
                     if t in ("u64", "u32"):
                         f = {"==": "Z.eqb", "<": "Z.ltb", "<=": "Z.leb", ">": "Z.gtb", ">=": "Z.geb"}
@@ -875,6 +882,8 @@ class Gen:
                 return k.fn("(if %s then %s else %s)" % (c, a[0], b[0]), merge_type(a[1], b[1]))
             return self.branching(k, lambda kk: "if %s\nthen %s\nelse %s" % (
                 c, self.scoped(lambda: self.block(e[2], dict(env), kk)), self.scoped(lambda: self.block(el, dict(env), kk))))
+        if kind == "iflet" and e[2][0] == "mcall" and e[2][2] == "last_mut" and not e[2][3] and e[2][1][0] == "var":
+            return self.last_mut(e, env, k)
         if kind == "iflet":
             def il(text, t):
                 el = e[4] if e[4] is not None else []
@@ -911,6 +920,37 @@ class Gen:
         if kind == "mcall":
             return self.mcall(e, env, k)
         self.fail("expression outside the subset: %r" % (kind,))
+
+    def last_mut(self, e, env, k):
+        """if let Some((a, b)) = v.last_mut() { body } [else ..]: the last element is taken out of the `mut` vector into `mut` variables
+        a, b; wherever the body is left (falling through or by `return`) the element is stored back (v := init ++ [(a, b)])."""
+        _, pat, scrut, th, el = e
+        vn = scrut[1][1]
+        if vn not in env or env[vn][0] not in [g for _, g, _ in self.muts]:
+            self.fail("last_mut() on something that is not a `mut` vector")
+        vg, vt = env[vn]
+        if not (isinstance(vt, tuple) and vt[0] == "vec" and isinstance(vt[1], tuple) and vt[1][0] == "tup" and len(vt[1][1]) == 2):
+            self.fail("last_mut() on %r" % (vt,))
+        if not (pat[0] == "pctor" and pat[1] == "Some" and len(pat[2]) == 1 and pat[2][0][0] == "ptup" and len(pat[2][0][1]) == 2
+                and all(q[0] == "pvar" for q in pat[2][0][1])):
+            self.fail("last_mut() pattern outside the subset")
+        el = el if el is not None else []
+
+        def build(kk):
+            def then():
+                env2 = dict(env)
+                init = self.fresh("init")
+                ga = self.bind(env2, pat[2][0][1][0][1], vt[1][1][0], True)
+                gb = self.bind(env2, pat[2][0][1][1][1], vt[1][1][1], True)
+                wb = "let %s := %s ++ [(%s, %s)] in\n" % (vg, init, ga, gb)
+                self.writeback.append(wb)
+                body = self.block(th, env2, K(lambda text, t: wb + kk.fn("tt", "unit"), True))
+                self.writeback.pop()
+                return "| Some (%s, (%s, %s)) => %s" % (init, ga, gb, body)
+            a = self.scoped(then)
+            b = self.scoped(lambda: self.block(el, dict(env), kk))
+            return "match vec_last_split %s with\n%s\n| None => %s\nend" % (vg, a, b)
+        return self.branching(k, build)
 
     def closure(self, c, argt, env):
         """(Coq fun text, result type) of a closure applied to a value of type argt; the body must be pure"""
@@ -1004,6 +1044,19 @@ class Gen:
                 if at != "u32":
                     self.fail("HashMap::get with a key of type %r" % (at,))
                 return k.fn("(assoc_last %s %s)" % (a, text), ("opt", "name"))
+            if t == "range" and m == "intersects" and len(args) == 1:
+                a, at = self.need_pure(args[0], env, "the argument of intersects")
+                if at != "range":
+                    self.fail("intersects with %r" % (at,))
+                return k.fn("(intersects %s %s)" % (text, a), "bool")
+            if tk == "opt" and m == "unwrap" and not args:
+                x = self.fresh("x")
+                return "do %s <- opt_unwrap %s;\n%s" % (x, text, k.fn(x, t[1]))
+            if tk == "vec" and m == "push" and len(args) == 1 and recv[0] == "var" and env[recv[1]][0] in [g for _, g, _ in self.muts]:
+                g = env[recv[1]][0]
+                return self.expr(args[0], env, K(lambda a, at: (
+                    "let %s := %s ++ [%s] in\n%s" % (g, g, a, k.fn("tt", "unit")) if same_type(at, t[1])
+                    else self.fail("push of %r onto %r" % (at, t))), k.tail))
             # ---- parser side (finish_item)
             if tk == "vec" and m == "into_iter" and not args:
                 return k.fn(text, t)
@@ -1225,6 +1278,7 @@ def indent_aux(a):
 
 T_INL4 = ("tup", ["u32", "u32", "u64", "u32"])
 SIGS = {
+    ("StackInfoWin", "memory_range"): ("src_win_memory_range p", ("opt", "range"), []),
     ("Function", "get_inlinee_at_depth"): ("src_get_inlinee_at_depth p", ("opt", T_INL4), ["u32", "u64"]),
     ("Function", "get_outermost_sourceloc"): ("src_get_outermost_sourceloc p", ("opt", ("tup", ["u32", "u32", "u64", ("opt", "u32")])), ["u64"]),
     ("Function", "get_innermost_sourceloc"): ("src_get_innermost_sourceloc p", ("opt", ("tup", ["u32", "u32", "u64"])), ["u64"]),
@@ -1252,6 +1306,9 @@ FALLBACK = {
                            "  Ret (find_nearest_public (st_publics v_self) v_addr).\n",
     "fill_symbol": "Definition src_fill_symbol (p : profile) (fuel : nat) (v_self : symtab) (mbase instr : Z) : outcome sym_out :=\n"
                    "  fill_symbol p v_self mbase instr.\n",
+    "insert_win_stack_info": "Definition src_insert_win_stack_info (p : profile) (v_stack_win : list (range * win_rec)) (v_info : win_rec)\n"
+                             "    : outcome (list (range * win_rec)) :=\n"
+                             "  do acc <- win_insert (rev v_stack_win) v_info; Ret (rev acc).\n",
     "finish_function": "Definition src_finish_function (p : profile) (v_functions : list (range * func)) (v_cur : func) (v_lines : list line_rec)\n"
                        "    (v_inlinees : list inl_rec) : outcome (list (range * func)) :=\n"
                        "  do r <- finish_func (mk_fraw (fn_addr v_cur) (fn_size v_cur) (fn_psize v_cur) (fn_name v_cur) v_lines v_inlinees);\n"
@@ -1335,10 +1392,33 @@ def finish_arm():
 
 attempt("finish_function", finish_arm)
 
+# ---- parser.rs: insert_win_stack_info (a fn item nested in parse_more); the warn!(..) statements are logging only
+WI = "insert_win_stack_info (parser.rs)"
+T_WINS = ("vec", ("tup", ["range", ("S", "StackInfoWin")]))
+
+
+def win_insert():
+    pa_src = read("breakpad-symbols/src/sym_file/parser.rs")
+    sig, body = fn_source(pa_src, r"fn insert_win_stack_info\(", WI)
+    want = "fn insert_win_stack_info( stack_win: &mut Vec<(Range<u64>, StackInfoWin)>, info: StackInfoWin, )"
+    if re.sub(r"\s+", " ", sig).strip() != want:
+        die("%s: signature changed:\n  expected: %s\n  source has: %s" % (WI, want, re.sub(r"\s+", " ", sig).strip()))
+    body = re.sub(r"warn!\s*\((?:[^()\"]|\"(?:[^\"\\]|\\.)*\"|\((?:[^()])*\))*\)\s*;", "", body)
+    pp = P(tokenize(body, WI), WI)
+    blk = pp.block()
+    if pp.peek()[0] != "eof":
+        pp.fail("trailing source")
+    return compile_fn("insert_win_stack_info", WI, None, None, "SymbolParser",
+                      [("stack_win", T_WINS), ("info", ("S", "StackInfoWin"))], "unit", T_WINS, SIGS, None,
+                      body=blk, mut_params=("stack_win",), outputs="v_stack_win")
+
+
+attempt("insert_win_stack_info", win_insert)
+
 out = """(* GENERATED by translate/c11_compile.py from breakpad-symbols/src/sym_file/{types,mod}.rs - do not edit.
    The bodies of Function::{memory_range, get_inlinee_at_depth, get_outermost_sourceloc, get_innermost_sourceloc},
-   StackInfoWin::memory_range, SymbolFile::{find_nearest_public, fill_symbol} and the Line::Function arm of
-   SymbolParser::finish_item (parser.rs), compiled statement by statement into Gallina over the
+   StackInfoWin::memory_range, SymbolFile::{find_nearest_public, fill_symbol}, the Line::Function arm of
+   SymbolParser::finish_item and insert_win_stack_info (parser.rs), compiled statement by statement into Gallina over the
    vocabulary of C11/Prims.v.  C11/SrcTie.v proves them equal to the hand-written model C11/Model.v. *)
 From RM Require Import Base.Word C08.Model C11.Model C11.Prims.
 Open Scope Z_scope.
